@@ -1,4 +1,4 @@
 SPECIFICATION Spec
-CONSTANTS Levels = 1 MaxLen = 2 ExcOps = TRUE AllCfgs = TRUE Stride = 1 Offset = 0
+CONSTANTS Levels = 1 MaxLen = 2 ExcOps = TRUE AllCfgs = TRUE Stride = 1 Offset = 0 Wide = TRUE
 INVARIANTS NoVerdict ResultOK
 CHECK_DEADLOCK FALSE
